@@ -80,3 +80,93 @@ def exhaustive_small(eng, caps=(0, 1, 2, 3), prios=(1, 2, 3), maxlen=5):
                     ops.append("%s add 0 %d %d" % (eng, p, i + 1))
                 seqs.append(("%s-exh-c%d-%s" % (eng, cap, "".join(map(str, combo))), ops))
     return seqs
+
+
+def res_exact_fill(rng, cap=None):
+    """a merge that brings the reservoir to exactly its capacity (or one below / above), in an order that is not a heap
+    order, followed by further offers: the lazy heap initialisation at first fill must also happen on this path"""
+    cap = rng.choice([2, 3, 3, 4, 5, 8]) if cap is None else cap
+    prange = rng.choice([3, 5, 10, 100])
+    nid = itertools.count(1)
+    k = rng.randint(0, cap)
+    total = cap + rng.choice([0, 0, 0, -1, 1])
+    ops = ["res new 0 %d" % cap]
+    pr = sorted((rng.randrange(prange) for _ in range(k)), reverse=rng.random() < 0.7)
+    for p in pr:
+        ops.append("res add 0 %d %d" % (p, next(nid)))
+    ops.append("res new 1 %d" % cap)
+    for _ in range(max(total - k, 0)):
+        ops.append("res add 1 %d %d" % (rng.randrange(prange), next(nid)))
+    ops.append("res %s 0 1" % rng.choice(["merge", "mergefailed"]))
+    for _ in range(rng.randint(1, cap + 3)):
+        ops.append("res add 0 %d %d" % (rng.randrange(prange), next(nid)))
+    return ops
+
+
+def exhaustive_merge(caps=(2, 3), prios=(1, 2, 3), suffix=2, slack=(0,)):
+    """every (destination offers, carried-over offers, later offers) over a small priority alphabet in which the merge
+    brings the destination to its capacity + slack"""
+    seqs = []
+    for cap in caps:
+        for k in range(0, cap + 1):
+            for sl in slack:
+                m = cap + sl - k
+                if m < 0:
+                    continue
+                for d in itertools.product(prios, repeat=k):
+                    for c in itertools.product(prios, repeat=m):
+                        for n in range(1, suffix + 1):
+                            for sfx in itertools.product(prios, repeat=n):
+                                nid = itertools.count(1)
+                                ops = ["res new 0 %d" % cap] + ["res add 0 %d %d" % (p, next(nid)) for p in d]
+                                ops += ["res new 1 %d" % cap] + ["res add 1 %d %d" % (p, next(nid)) for p in c]
+                                ops += ["res mergefailed 0 1"] + ["res add 0 %d %d" % (p, next(nid)) for p in sfx]
+                                seqs.append(("res-exm-c%d-%s-%s-%s" % (cap, "".join(map(str, d)), "".join(map(str, c)), "".join(map(str, sfx))), ops))
+    return seqs
+
+
+def slow_bump(rng, cap=None):
+    """full collection; a statement that is refused; an already retained statement observed again with a larger
+    duration (so that another one becomes the fastest); then statements in between — in every mix"""
+    cap = rng.choice([1, 2, 3, 3, 4, 10]) if cap is None else cap
+    ops = ["slow new 0 %d" % cap]
+    t = itertools.count(1000)
+    val = {}
+
+    def obs(i, mx):
+        mn = rng.randint(0, mx)
+        cnt = rng.randint(1, 3)
+        ops.append("slow obs 0 %d %d %d %d %d %d" % (i, cnt, rng.randint(mx, mx * cnt + 1), mn, mx, next(t)))
+    base = rng.choice([10, 100, 1000])
+    for i in range(1, cap + 1):
+        val[i] = base + rng.randrange(50)
+        obs(i, val[i])
+    nxt = cap + 1
+    for _ in range(rng.randint(2, 10)):
+        lo = min(val.values()) if val else base
+        hi = max(val.values()) if val else base
+        kind = rng.choice(["refused", "bump-fastest", "bump-any", "between", "above", "tie"])
+        if kind == "refused":
+            obs(nxt, max(lo - rng.randint(0, 3), 0)); nxt += 1
+        elif kind == "bump-fastest" and val:
+            i = min(val, key=lambda k: val[k])
+            val[i] = val[i] + rng.randint(1, hi - lo + 5)
+            obs(i, val[i])
+        elif kind == "bump-any" and val:
+            i = rng.choice(list(val))
+            v = val[i] + rng.randint(-5, 20)
+            obs(i, max(v, 0))
+            val[i] = max(val[i], v)
+        elif kind == "tie":
+            obs(nxt, lo); nxt += 1
+        else:
+            v = rng.randint(lo + 1, max(hi, lo + 1)) if kind == "between" else hi + rng.randint(1, 9)
+            obs(nxt, v)
+            # the model decides what is retained; the generator only tracks an approximation to pick interesting values
+            if val:
+                j = min(val, key=lambda k: val[k])
+                if v > val[j]:
+                    del val[j]
+                    val[nxt] = v
+            nxt += 1
+    return ops
